@@ -53,36 +53,47 @@ pub fn twin() {
 // ---------------------------------------------------------------------------------------------
 use redis_sim::replication::hash_ring::VirtualNode;
 
-/// (position, node) sorted by position; 3 members x 2 virtual nodes
-const LAY: [[(u64, u64); 6]; 3] = [
-    [(100, 1), (200, 2), (300, 3), (5000, 1), (6000, 2), (7000, 3)],
-    [(0, 3), (10, 1), (20, 1), (30, 2), (40, 3), (18446744073709551615, 2)],   // adjacent vnodes of one node; positions 0 and u64::MAX
-    [(100, 1), (200, 2), (300, 3), (6000, 3), (8000, 2), (9000, 1)],
+/// (position, node) sorted by position. Layouts 0-2: 3 members x 2 virtual nodes; layout 3: 2 members x 2 virtual
+/// nodes (adjacent virtual nodes of one member must be skipped); layout 4: 3 members x 1 virtual node (wrap-around).
+const LAY: [&[(u64, u64)]; 5] = [
+    &[(100, 1), (200, 2), (300, 3), (5000, 1), (6000, 2), (7000, 3)],
+    &[(0, 3), (10, 1), (20, 1), (30, 2), (40, 3), (18446744073709551615, 2)],   // adjacent vnodes of one node; positions 0 and u64::MAX
+    &[(100, 1), (200, 2), (300, 3), (6000, 3), (8000, 2), (9000, 1)],
+    &[(10, 1), (20, 1), (30, 2), (18446744073709551615, 2)],
+    &[(0, 2), (4000, 3), (9000, 1)],
 ];
+const MEMBERS: [usize; 5] = [3, 3, 3, 2, 3];
 
 fn build(layout: usize, order: [u64; 3], rf: usize) -> HashRing {
+    let lay = LAY[layout];
     let mut ring = Vec::with_capacity(6);
     let mut seen = [0u32; 4];
     let mut i = 0;
-    while i < 6 {
-        let (p, n) = LAY[layout][i];
+    while i < lay.len() {
+        let (p, n) = lay[i];
         ring.push((p, VirtualNode::new(ReplicaId(n), seen[n as usize])));
         seen[n as usize] += 1;
         i += 1;
     }
-    HashRing::verif_from_parts(ring, vec![ReplicaId(order[0]), ReplicaId(order[1]), ReplicaId(order[2])], 2, rf)
+    let mut nodes = Vec::with_capacity(3);
+    let mut j = 0;
+    while j < 3 { if order[j] as usize <= MEMBERS[layout] { nodes.push(ReplicaId(order[j])); } j += 1; }
+    let vn = if layout == 4 { 1 } else { 2 };
+    HashRing::verif_from_parts(ring, nodes, vn, rf)
 }
 /// reference: first virtual node at or after `pos` (wrapping), then clockwise, distinct physical nodes
 fn reference(layout: usize, pos: u64, want: usize, skip: u64) -> ([u64; 3], usize) {
+    let lay = LAY[layout];
+    let len = lay.len();
     let mut start = 0;
     let mut found = false;
     let mut i = 0;
-    while i < 6 { if !found && LAY[layout][i].0 >= pos { start = i; found = true; } i += 1; }
+    while i < len { if !found && lay[i].0 >= pos { start = i; found = true; } i += 1; }
     let mut out = [0u64; 3];
     let mut n = 0;
     let mut k = 0;
-    while k < 6 && n < want {
-        let node = LAY[layout][(start + k) % 6].1;
+    while k < len && n < want {
+        let node = lay[(start + k) % len].1;
         if node != skip && !(n > 0 && out[0] == node) && !(n > 1 && out[1] == node) { out[n] = node; n += 1; }
         k += 1;
     }
@@ -101,8 +112,9 @@ fn contains(a: &[ReplicaId], x: ReplicaId) -> bool { let mut i = 0; while i < a.
 pub fn ring(layout: usize, what: u8, rf: usize) {
     let pos = vs::u64();
     crate::vs::ring_set(layout, pos);
-    if vs::NATIVE { return ring_native(rf, what); }
-    let want = if rf < 3 { rf } else { 3 };
+    if vs::NATIVE { return ring_native(rf, what, MEMBERS[layout]); }
+    let members = MEMBERS[layout];
+    let want = if rf < members { rf } else { members };
     let r1 = build(layout, [1, 2, 3], rf);
     match what {
         0 => {
@@ -116,7 +128,7 @@ pub fn ring(layout: usize, what: u8, rf: usize) {
         }
         1 => {
             let sender = vs::u64();
-            vs::assume(sender >= 1 && sender <= 3);
+            vs::assume(sender >= 1 && sender <= members as u64);
             let a = r1.get_replicas("k");
             let g = r1.get_gossip_targets("k", ReplicaId(sender));
             let mut ok = !contains(&g, ReplicaId(sender));
@@ -129,12 +141,12 @@ pub fn ring(layout: usize, what: u8, rf: usize) {
         }
         _ => {
             let gone = vs::u64();
-            vs::assume(gone >= 1 && gone <= 3);
+            vs::assume(gone >= 1 && gone <= members as u64);
             let a = r1.get_replicas("k");
             let mut r3 = r1.clone();
             r3.remove_node(ReplicaId(gone));
             let c = r3.get_replicas("k");
-            let exp = reference(layout, pos, if rf < 2 { rf } else { 2 }, gone);
+            let exp = reference(layout, pos, if rf < members - 1 { rf } else { members - 1 }, gone);
             vcheck!(matches(&c, &exp), "ring:after a removal the list is not the remaining members clockwise from the key");
             vcheck!(contains(&a, ReplicaId(gone)) || same(&a, &c), "ring:removing a node changed the placement of a key it did not hold");
             std::mem::forget((a, c, r3));
@@ -144,10 +156,11 @@ pub fn ring(layout: usize, what: u8, rf: usize) {
 }
 
 /// native counterpart: real HashRing::new (real hashing, real sort) in two join orders, 4000 real keys
-fn ring_native(rf: usize, what: u8) {
-    let r1 = HashRing::new(vec![ReplicaId(1), ReplicaId(2), ReplicaId(3)], 2, rf);
-    let r2 = HashRing::new(vec![ReplicaId(3), ReplicaId(1), ReplicaId(2)], 2, rf);
-    let want = if rf < 3 { rf } else { 3 };
+fn ring_native(rf: usize, what: u8, members: usize) {
+    let (m1, m2) = if members == 2 { (vec![ReplicaId(1), ReplicaId(2)], vec![ReplicaId(2), ReplicaId(1)]) } else { (vec![ReplicaId(1), ReplicaId(2), ReplicaId(3)], vec![ReplicaId(3), ReplicaId(1), ReplicaId(2)]) };
+    let r1 = HashRing::new(m1, 2, rf);
+    let r2 = HashRing::new(m2, 2, rf);
+    let want = if rf < members { rf } else { members };
     let (mut wf, mut ord, mut gos, mut rem_ok) = (true, true, true, true);
     let mut i = 0;
     while i < 4000 {
@@ -159,13 +172,13 @@ fn ring_native(rf: usize, what: u8) {
         // the list for rf must extend the list for rf = 1 (same primary): catches lists that ignore the key
         let p = r1.get_replicas_with_rf(&key, 1);
         if p.len() != 1 || p[0] != a[0] { wf = false; }
-        for sender in 1..=3u64 {
+        for sender in 1..=members as u64 {
             let g = r1.get_gossip_targets(&key, ReplicaId(sender));
             if contains(&g, ReplicaId(sender)) { gos = false; }
             for x in &a { if *x != ReplicaId(sender) && !contains(&g, *x) { gos = false; } }
             for x in &g { if !contains(&a, *x) { gos = false; } }
         }
-        for gone in 1..=3u64 {
+        for gone in 1..=members as u64 {
             let mut r3 = r1.clone();
             r3.remove_node(ReplicaId(gone));
             let c = r3.get_replicas(&key);
